@@ -20,6 +20,24 @@ Proof.
   - intros ->. apply Z.eqb_refl.
 Qed.
 
+Lemma ctype_eqb_eq a : forall b, ctype_eqb a b = true <-> a = b.
+Proof.
+  induction a as [t|e IH]; destruct b as [u|f]; simpl; split; intro H; try discriminate.
+  - apply ptype_eqb_eq in H. subst; reflexivity.
+  - inversion H; subst. apply ptype_eqb_eq. reflexivity.
+  - apply IH in H. subst; reflexivity.
+  - inversion H; subst. apply IH. reflexivity.
+Qed.
+
+Lemma catype_eqb_eq a : forall b, catype_eqb a b = true <-> a = b.
+Proof.
+  induction a as [t|e IH]; destruct b as [u|f]; simpl; split; intro H; try discriminate.
+  - apply atype_eqb_eq in H. subst; reflexivity.
+  - inversion H; subst. apply atype_eqb_eq. reflexivity.
+  - apply IH in H. subst; reflexivity.
+  - inversion H; subst. apply IH. reflexivity.
+Qed.
+
 Lemma sigv_eqb_eq x y : sigv_eqb x y = true <-> x = y.
 Proof.
   destruct x as [a|a|a sa|a], y as [b|b|b sb|b]; simpl; split; intro H; try discriminate.
@@ -27,8 +45,8 @@ Proof.
   - inversion H; subst. apply Z.eqb_refl.
   - apply Z.eqb_eq in H; subst; auto.
   - inversion H; subst. apply Z.eqb_refl.
-  - apply andb_true_iff in H. destruct H as [Ha Hb]. apply ptype_eqb_eq in Ha. apply Z.eqb_eq in Hb. subst; auto.
-  - inversion H; subst. apply andb_true_iff. split; [apply ptype_eqb_eq; auto | apply Z.eqb_refl].
+  - apply andb_true_iff in H. destruct H as [Ha Hb]. apply ctype_eqb_eq in Ha. apply Z.eqb_eq in Hb. subst; auto.
+  - inversion H; subst. apply andb_true_iff. split; [apply ctype_eqb_eq; auto | apply Z.eqb_refl].
   - apply Bool.eqb_prop in H; subst; auto.
   - inversion H; subst. apply Bool.eqb_reflx.
 Qed.
@@ -48,8 +66,8 @@ Lemma afield_eqb_eq x y : afield_eqb x y = true <-> x = y.
 Proof.
   destruct x as [[n1 t1] b1], y as [[n2 t2] b2]. simpl. split; intro H.
   - apply andb_true_iff in H. destruct H as [H H3]. apply andb_true_iff in H. destruct H as [H1 H2].
-    apply Z.eqb_eq in H1. apply atype_eqb_eq in H2. apply Bool.eqb_prop in H3. subst; auto.
-  - inversion H; subst. rewrite Z.eqb_refl, Bool.eqb_reflx. simpl. rewrite andb_true_r. apply atype_eqb_eq; auto.
+    apply Z.eqb_eq in H1. apply catype_eqb_eq in H2. apply Bool.eqb_prop in H3. subst; auto.
+  - inversion H; subst. rewrite Z.eqb_refl, Bool.eqb_reflx. simpl. rewrite andb_true_r. apply catype_eqb_eq; auto.
 Qed.
 
 Lemma aschema_eqb_eq x y : aschema_eqb x y = true <-> x = y.
@@ -126,6 +144,7 @@ Definition representable (t : ptype) (v : pyval) : Prop :=
   match v with
   | PV VNull => True
   | POther => False
+  | PList _ => False
   | PBytes _ => t = T_binary \/ t = T_fixed
   | PV w =>
     match t with
@@ -166,7 +185,7 @@ Proof. intro H. apply andb_true_iff in H. destruct H as [H1 H2]. simpl in *. lia
 
 Lemma fits_representable t v : value_fits t v = true -> representable t v.
 Proof.
-  destruct v as [w| |]; simpl; [| |discriminate].
+  destruct v as [w| | |l]; simpl; [| |discriminate|discriminate].
   - destruct w as [|b|z|f|s|u|d|u]; auto; destruct t; simpl; intro H; try discriminate; eauto.
     all: try (exists z; split; [first [apply range_int | apply range_long]; exact H | left; reflexivity]).
     all: try (right; exists f; split; [reflexivity|]; destruct f; auto; apply f32_finite_abs; exact H).
@@ -177,11 +196,26 @@ Proof.
   - destruct t; intro H; try discriminate; auto.
 Qed.
 
+(* a list<e> column holds None or a list whose every element the element type can hold *)
+Fixpoint representable_c (c : ctype) (v : pyval) : Prop :=
+  match c with
+  | CPrim t => representable t v
+  | CList e => match v with PV VNull => True | PList l => Forall (representable_c e) l | _ => False end
+  end.
+
+Lemma fits_representable_c c : forall v, value_fits_c c v = true -> representable_c c v.
+Proof.
+  induction c as [t|e IH]; intros v H; simpl in *.
+  - apply fits_representable. exact H.
+  - destruct v as [[| | | | | | |]| | |l]; try discriminate; auto.
+    apply Forall_forall. intros x Hx. apply IH. rewrite forallb_forall in H. exact (H x Hx).
+Qed.
+
 (* ------------------------------------------------------------------ the append machine *)
 Arguments remove : simpl never.
 
 Section MachineProofs.
-  Variable conv : atype -> pyval -> option pyval.
+  Variable conv : catype -> pyval -> option pyval.
   Variable ts : ischema.
   Let T := sfields ts.
   Let A := arrow_of T.
@@ -310,7 +344,7 @@ Qed.
 (* ------------------------------------------------------------------ rejected appends leave no trace *)
 (* Holds for every table, with or without a persisted schema, and every conversion oracle. *)
 Section NoTrace.
-  Variable conv : atype -> pyval -> option pyval.
+  Variable conv : catype -> pyval -> option pyval.
 
   Definition store_fresh (w : world) : Prop := forall x, In x (w_store w) -> x < w_next w.
 
@@ -363,13 +397,13 @@ End NoTrace.
 (* ------------------------------------------------------------------ accepted rows are stored exactly *)
 Section Exact.
   Variable rnd32 : Q -> num.
-  Variable conv : atype -> pyval -> option pyval.
+  Variable conv : catype -> pyval -> option pyval.
 
   (* What is assumed of pyarrow: a value the library ADMITS (value_fits) is stored as canon, or the
      conversion raises.  Nothing is assumed about values the library refuses, nor about when pyarrow
      raises.  Validated against real pyarrow by the correspondence harness on every run. *)
   Definition conv_sound : Prop :=
-    forall t v c, value_fits t v = true -> conv (arrow_of_type t) v = Some c -> c = canon rnd32 t v.
+    forall t v c, value_fits_c t v = true -> conv (arrow_of_ctype t) v = Some c -> c = canon_c rnd32 t v.
 
   Hypothesis CS : conv_sound.
   Variable ts : ischema.
@@ -378,16 +412,16 @@ Section Exact.
 
   (* the row a scan must return for a supplied record: every column of the table, in table order *)
   Definition canon_row (fs : list field) (r : record) : srow :=
-    map (fun f => (fname f, canon rnd32 (ftype f) (rget r (fname f)))) fs.
+    map (fun f => (fname f, canon_c rnd32 (ftype f) (rget r (fname f)))) fs.
 
   Lemma conv_row_canon r : forall fs row,
-    forallb (fun f => value_fits (ftype f) (rget r (fname f))) fs = true ->
+    forallb (fun f => value_fits_c (ftype f) (rget r (fname f))) fs = true ->
     conv_row conv (arrow_of fs) r = Some row -> row = canon_row fs r.
   Proof.
     induction fs as [|f fs IH]; simpl; intros row V H.
     - inversion H; reflexivity.
     - apply andb_true_iff in V. destruct V as [V1 V2].
-      destruct (conv (arrow_of_type (ftype f)) (rget r (fname f))) as [c|] eqn:C; [|discriminate].
+      destruct (conv (arrow_of_ctype (ftype f)) (rget r (fname f))) as [c|] eqn:C; [|discriminate].
       destruct (conv_row conv (arrow_of fs) r) as [rest|] eqn:R; [|discriminate].
       inversion H; subst. rewrite (CS _ _ _ V1 C). rewrite (IH rest V2 eq_refl). reflexivity.
   Qed.
@@ -406,17 +440,18 @@ Section Exact.
 
   (* what the property demands of every accepted record *)
   Definition record_ok (r : record) : Prop :=
-    (forall k v, In (k, v) r -> has_field T k = true)
-    /\ forall f, In f T -> (freq f = true -> is_none (rget r (fname f)) = false) /\ representable (ftype f) (rget r (fname f)).
+    (forall k v, In (k, v) r -> key_is_str k = true /\ has_field T k = true)
+    /\ forall f, In f T -> (freq f = true -> is_none (rget r (fname f)) = false) /\ representable_c (ftype f) (rget r (fname f)).
 
   Lemma validate_record_ok r : validate_record T r = true -> record_ok r.
   Proof.
-    unfold validate_record. intro H. apply andb_true_iff in H. destruct H as [H H3]. apply andb_true_iff in H. destruct H as [H1 H2].
+    unfold validate_record. intro H. apply andb_true_iff in H. destruct H as [H H3]. apply andb_true_iff in H. destruct H as [H H2].
+    apply andb_true_iff in H. destruct H as [H0 H1].
     split.
-    - intros k v Hin. rewrite forallb_forall in H1. exact (H1 (k, v) Hin).
+    - intros k v Hin. rewrite forallb_forall in H0, H1. split; [exact (H0 (k, v) Hin) | exact (H1 (k, v) Hin)].
     - intros f Hf. rewrite forallb_forall in H2, H3. split.
       + intro Rq. specialize (H2 f Hf). rewrite Rq in H2. simpl in H2. apply negb_true_iff in H2. exact H2.
-      + apply fits_representable. exact (H3 f Hf).
+      + apply fits_representable_c. exact (H3 f Hf).
   Qed.
 
   Definition step_rows (w : world) (e : event) : list srow :=
@@ -480,11 +515,13 @@ Definition kind_of_atype (a : atype) : kind :=
   | A_bool_ => KBool | A_int32 | A_int64 => KInt | A_float32 | A_float64 => KFlt
   | A_string => KStr | A_binary => KStr | A_date32 => KDate | A_time64_us => KTime | A_timestamp_us => KTs
   end.
+(* list cells carry no bounds and count as NULL for pruning (bval), like bytes: any kind will do *)
+Definition kind_of_catype (a : catype) : kind := match a with APrim p => kind_of_atype p | AList _ => KStr end.
 
 (* An Arrow column holds values of one kind: what pyarrow's conversion returns for an Arrow type is
    None or a value of that type's kind (bytes carry no bounds and count as NULL for pruning). *)
-Definition conv_kinds (conv : atype -> pyval -> option pyval) : Prop :=
-  forall a v c, conv a v = Some c -> has_kind (kind_of_atype a) (bval c) = true.
+Definition conv_kinds (conv : catype -> pyval -> option pyval) : Prop :=
+  forall a v c, conv a v = Some c -> has_kind (kind_of_catype a) (bval c) = true.
 
 Lemma nodup_map_inj {A B} (h : A -> B) l : NoDup (map h l) -> forall x y, In x l -> In y l -> h x = h y -> x = y.
 Proof.
@@ -554,13 +591,13 @@ Proof.
 Qed.
 
 Section FilterProofs.
-  Variable conv : atype -> pyval -> option pyval.
+  Variable conv : catype -> pyval -> option pyval.
   Hypothesis CK : conv_kinds conv.
 
   Fixpoint colkind (a : aschema) (c : Z) : kind :=
     match a with
     | [] => KInt
-    | (n, t, _) :: a' => if c =? n then kind_of_atype t else colkind a' c
+    | (n, t, _) :: a' => if c =? n then kind_of_catype t else colkind a' c
     end.
 
   Lemma cell_conv_row r c : forall a row, conv_row conv a r = Some row -> has_kind (colkind a c) (cell (vrow row) c) = true.
@@ -596,21 +633,31 @@ Section FilterProofs.
   Hypothesis NDn : NoDup (map fname T).
   Hypothesis NDi : NoDup (map fid T).
 
-  (* a file that pruning skips holds no selected row *)
+  (* a file that pruning skips holds no selected row: for every file whose bounds were computed from its
+     content under the table's field ids and whose columns each hold values of one kind *)
+  Lemma pruned_bounds_empty X fs lo hi rows : (lo, hi) = bounds_for T A rows ->
+    (forall c, homogeneous (column (map vrow rows) c)) ->
+    file_may_match lo hi (ids_of T) fs = false ->
+    filter (row_selected X fs) (map vrow rows) = [].
+  Proof.
+    intros Eb Hom M. unfold bounds_for in Eb.
+    assert (E1 : lo = fst (file_bounds (bound_ids T A) (map vrow rows))) by (rewrite <- Eb; reflexivity).
+    assert (E2 : hi = snd (file_bounds (bound_ids T A) (map vrow rows))) by (rewrite <- Eb; reflexivity).
+    rewrite E1, E2 in M. unfold bound_ids in M.
+    rewrite (fmm_filtered _ T (map vrow rows) fs NDn NDi) in M.
+    apply filter_none. intros r Hr.
+    eapply prune_sound; [| |exact M|exact Hr].
+    - rewrite map_snd_ids. apply nodup_map_filter. exact NDi.
+    - exact Hom.
+  Qed.
+
   Lemma pruned_file_empty X fs f : file_ok conv ts f ->
     file_may_match (df_lo f) (df_hi f) (ids_of T) fs = false ->
     filter (row_selected X fs) (map vrow (df_rows f)) = [].
   Proof.
     intros [Ea [Eb [rs Cv]]] M. fold T in Eb. fold A in Eb, Cv.
-    unfold bounds_for in Eb.
-    assert (E1 : df_lo f = fst (file_bounds (bound_ids T A) (map vrow (df_rows f)))) by (rewrite <- Eb; reflexivity).
-    assert (E2 : df_hi f = snd (file_bounds (bound_ids T A) (map vrow (df_rows f)))) by (rewrite <- Eb; reflexivity).
-    rewrite E1, E2 in M. unfold bound_ids in M.
-    rewrite (fmm_filtered _ T (map vrow (df_rows f)) fs NDn NDi) in M.
-    apply filter_none. intros r Hr.
-    eapply prune_sound; [| |exact M|exact Hr].
-    - rewrite map_snd_ids. apply nodup_map_filter. exact NDi.
-    - intro c. exact (converted_homogeneous A rs (df_rows f) c Cv).
+    apply (pruned_bounds_empty X fs (df_lo f) (df_hi f)); auto.
+    intro c. exact (converted_homogeneous A rs (df_rows f) c Cv).
   Qed.
 
   Lemma flat_map_prune {F B} (bounds : F -> list (Z * value) * list (Z * value)) ids es (g : F -> list B) files :
@@ -638,29 +685,39 @@ Section FilterProofs.
     induction files as [|f fs IH]; simpl; auto. rewrite map_app, filter_app, IH. reflexivity.
   Qed.
 
-  Lemma inv_filter X fs w : Inv conv ts w ->
+  (* the filtered scan of a world all of whose current files carry the table layout and hold no selected row
+     whenever pruning skips them *)
+  Lemma filtered_scan_files X fs w : w_schema w = Some ts ->
+    (forall f, In f (current w) -> df_arrow f = A
+       /\ (file_may_match (df_lo f) (df_hi f) (ids_of T) fs = false -> filter (row_selected X fs) (map vrow (df_rows f)) = [])) ->
     filtered_scan X fs w = Some (filter (row_selected X fs) (map vrow (flat_map df_rows (current w)))).
   Proof.
-    intro I. unfold filtered_scan. rewrite (inv_schema conv ts w I). fold T.
-    assert (OK : forall f, In f (current w) -> file_ok conv ts f).
-    { intros f Hf. destruct (current_in _ _ Hf) as [sn [H1 H2]]. exact (inv_files conv ts w I sn f H1 H2). }
+    intros S OK. unfold filtered_scan. rewrite S. fold T.
     rewrite (scan_ok_same A).
     2:{ intros f Hf. apply prune_incl in Hf. exact (proj1 (OK f Hf)). }
     f_equal. rewrite filter_flat_map.
     apply (flat_map_prune (fun f => (df_lo f, df_hi f))). simpl.
-    intros f Hf M. exact (pruned_file_empty X fs f (OK f Hf) M).
+    intros f Hf M. exact (proj2 (OK f Hf) M).
+  Qed.
+
+  Lemma inv_filter X fs w : Inv conv ts w ->
+    filtered_scan X fs w = Some (filter (row_selected X fs) (map vrow (flat_map df_rows (current w)))).
+  Proof.
+    intro I. apply filtered_scan_files; [exact (inv_schema conv ts w I)|].
+    intros f Hf. destruct (current_in _ _ Hf) as [sn [H1 H2]]. pose proof (inv_files conv ts w I sn f H1 H2) as OK.
+    split; [exact (proj1 OK) | exact (pruned_file_empty X fs f OK)].
   Qed.
 End FilterProofs.
 
 (* ------------------------------------------------------------------ stored bounds are the column's true extremes *)
 Lemma has_col_arrow T g : In g T -> has_col (arrow_of T) (fname g) = true.
 Proof.
-  intro H. unfold has_col, arrow_of. apply existsb_exists. exists (fname g, arrow_of_type (ftype g), negb (freq g)).
+  intro H. unfold has_col, arrow_of. apply existsb_exists. exists (fname g, arrow_of_ctype (ftype g), negb (freq g)).
   split; [apply in_map_iff; exists g; auto | simpl; apply Z.eqb_refl].
 Qed.
 
 Section BoundsExact.
-  Variable conv : atype -> pyval -> option pyval.
+  Variable conv : catype -> pyval -> option pyval.
   Variable ts : ischema.
   Let T := sfields ts.
   Let A := arrow_of T.
@@ -671,7 +728,7 @@ Section BoundsExact.
      the column's TABLE field id is exactly the minimum / maximum of the stored column (as pc.min / pc.max
      define it: NULLs and NaNs skipped) -- never a shortened, rounded or otherwise altered value -- and a
      column without ordinary values stores no bound. *)
-  Lemma file_bounds_exact f g : file_ok conv ts f -> In g T -> bounds_skipped (ftype g) = false ->
+  Lemma file_bounds_exact f g : file_ok conv ts f -> In g T -> bounds_skipped_c (ftype g) = false ->
     match bounds_of (column (map vrow (df_rows f)) (fname g)) with
     | Some (mn, mx) => lookup (fid g) (df_lo f) = Some mn /\ lookup (fid g) (df_hi f) = Some mx
     | None => lookup (fid g) (df_lo f) = None /\ lookup (fid g) (df_hi f) = None
@@ -686,7 +743,7 @@ Section BoundsExact.
       apply filter_In. split; [exact Hg|]. unfold A. rewrite (has_col_arrow T g Hg), Sk. reflexivity.
   Qed.
 
-  Lemma inv_bounds_exact w f g : Inv conv ts w -> In f (current w) -> In g T -> bounds_skipped (ftype g) = false ->
+  Lemma inv_bounds_exact w f g : Inv conv ts w -> In f (current w) -> In g T -> bounds_skipped_c (ftype g) = false ->
     match bounds_of (column (map vrow (df_rows f)) (fname g)) with
     | Some (mn, mx) => lookup (fid g) (df_lo f) = Some mn /\ lookup (fid g) (df_hi f) = Some mx
     | None => lookup (fid g) (df_lo f) = None /\ lookup (fid g) (df_hi f) = None
@@ -698,7 +755,7 @@ End BoundsExact.
 
 Lemma history_bounds_exact conv ts es f g :
   NoDup (map fname (sfields ts)) -> NoDup (map fid (sfields ts)) ->
-  In f (current (run conv (init (Some ts)) es)) -> In g (sfields ts) -> bounds_skipped (ftype g) = false ->
+  In f (current (run conv (init (Some ts)) es)) -> In g (sfields ts) -> bounds_skipped_c (ftype g) = false ->
   match bounds_of (column (map vrow (df_rows f)) (fname g)) with
   | Some (mn, mx) => lookup (fid g) (df_lo f) = Some mn /\ lookup (fid g) (df_hi f) = Some mx
   | None => lookup (fid g) (df_lo f) = None /\ lookup (fid g) (df_hi f) = None
@@ -712,7 +769,7 @@ Qed.
 Lemma history_bounds_true conv ts es f g lo hi :
   NoDup (map fname (sfields ts)) -> NoDup (map fid (sfields ts)) -> conv_kinds conv ->
   In f (current (run conv (init (Some ts)) es)) -> In g (sfields ts) ->
-  lookup (fid g) (df_lo f) = Some lo -> lookup (fid g) (df_hi f) = Some hi -> bounds_skipped (ftype g) = false ->
+  lookup (fid g) (df_lo f) = Some lo -> lookup (fid g) (df_hi f) = Some hi -> bounds_skipped_c (ftype g) = false ->
   forall r, In r (df_rows f) -> ordinary (cell (vrow r) (fname g)) = true ->
   vle lo (cell (vrow r) (fname g)) /\ vle (cell (vrow r) (fname g)) hi.
 Proof.
